@@ -499,6 +499,7 @@ func (c *hctx) expr(e ast.Expr, pre *[]hbind) (string, *hty) {
 		case types.FieldVal:
 			if c.isRecvIdent(v.X) {
 				if f, ok := c.fields[v.Sel.Name]; ok {
+					c.recvCheck(pre)
 					return f.name, f.typ
 				}
 				c.lostAt(v, "selector %s", src(v))
@@ -701,6 +702,13 @@ func (c *hctx) binary(v *ast.BinaryExpr, pre *[]hbind) (string, *hty) {
 		}
 		*pre = append(*pre, hbind{pat: tuple(append([]string{tm}, st...)), m: m, effect: len(st) > 0})
 		return tm, htBool
+	}
+	if (v.Op == token.EQL || v.Op == token.NEQ) && c.nilVar != nil &&
+		(c.isRecvIdent(v.X) && isNilExpr(v.Y) || c.isRecvIdent(v.Y) && isNilExpr(v.X)) {
+		if v.Op == token.EQL {
+			return c.nilVar.name, htBool
+		}
+		return "(negb " + c.nilVar.name + ")", htBool
 	}
 	x, xt := c.expr(v.X, pre)
 	y, yt := c.expr(v.Y, pre)
@@ -994,6 +1002,16 @@ func (c *hctx) callTranslated(cal *hfunc, fun ast.Expr, args []ast.Expr, ellipsi
 			c.lostAt(at, "call of the method %s", cal.spec)
 		}
 		if cal.recvFields {
+			if cal.recvNil || cal == c.fn && c.nilVar != nil {
+				switch {
+				case c.isRecvIdent(sel.X) && c.nilVar != nil:
+					s += " " + c.nilVar.name
+				case c.isRecvIdent(sel.X):
+					c.lostAt(at, "call of %s, which compares its receiver with nil (internal: no nil flag here)", cal.name)
+				default:
+					s += " false" // the address of a variable
+				}
+			}
 			switch {
 			case c.isRecvIdent(sel.X):
 				for _, f := range cal.fields {
